@@ -574,9 +574,18 @@ fn find_first_undefined_reference(
       for inner in pair.clone().into_inner() {
         match inner.as_rule() {
           Rule::typename | Rule::groupname => {
-            for id_pair in inner.into_inner() {
-              if id_pair.as_rule() == Rule::id {
-                defined.insert(id_pair.as_str().to_string());
+            // A head written `$name` / `$$name` defines the socket, not the
+            // plain name `name`. Socket references are never checked (see
+            // `check_reference`), so socket heads need not be recorded.
+            let is_socket = inner
+              .clone()
+              .into_inner()
+              .any(|p| matches!(p.as_rule(), Rule::socket_type | Rule::socket_group));
+            if !is_socket {
+              for id_pair in inner.into_inner() {
+                if id_pair.as_rule() == Rule::id {
+                  defined.insert(id_pair.as_str().to_string());
+                }
               }
             }
           }
